@@ -147,7 +147,7 @@ def big_case(rng, n):
             xs.add(''.join(rng.choice('ab01-_ ^') for _ in range(rng.randint(1, 9))))
     return {'xs': sorted(xs), 'form': 'list', 'kw': dict(tag=False, strip=False, remove_empties=False,
             extra_letters=None, variableLengthFrags=False, dialect=rng.choice(RC.DIALECTS)),
-            'size': None, 'seed': rng.choice([None, 7]), 'pools': ['big']}
+            'size': None, 'seed': rng.choice([None, 7]), 'pools': ['big'], 'prng': rng.randrange(2 ** 31)}
 
 
 def run_shard(ctx):
